@@ -210,12 +210,28 @@ int process_tarball(sqfs_dir_iterator_t *it, sqfs_writer_t *sqfs)
 			if (link != NULL &&
 			    ((ent->flags & SQFS_DIR_ENTRY_FLAG_HARD_LINK) ||
 			     !no_symlink_retarget)) {
-				if (canonicalize_name(link) == 0 &&
-				    !strncmp(link, root_becomes, rootlen) &&
-				    link[rootlen] == '/') {
-					memmove(link, link + rootlen,
-						strlen(link + rootlen) + 1);
+				/*
+				  Only a target that is prefixed by the root
+				  path is rewritten. Every other target must
+				  stay exactly as it is in the archive.
+				 */
+				char *copy = strdup(link);
+
+				if (copy == NULL) {
+					perror("retargeting link");
+					free(ent);
+					free(link);
+					return -1;
 				}
+
+				if (canonicalize_name(copy) == 0 &&
+				    !strncmp(copy, root_becomes, rootlen) &&
+				    copy[rootlen] == '/') {
+					/* never longer than the original */
+					strcpy(link, copy + rootlen);
+				}
+
+				free(copy);
 			}
 		} else if (ent->name[0] == '\0') {
 			is_root = true;
